@@ -83,7 +83,7 @@ Print Assumptions rfc7233_refuted_lenient_strip.
 
 Theorem rfc7233_refuted_digit_limit :
   let h := bytes_of_string "bytes=" ++ repeat 48 4301 ++ [45] in        (* 4301 zeros, "-" *)
-  range_strict h = false /\ rfc_ranges h = Some [From 0] /\ status (render GET ten_bytes (Some h)) = 200.
+  rfc_ranges h = Some [From 0] /\ status (render GET ten_bytes (Some h)) = 200.
 Proof. exact refuted_digit_limit. Qed.
 Print Assumptions rfc7233_refuted_digit_limit.
 
